@@ -47,7 +47,8 @@ PROFILES = {
         "kotlin": {"type_mappings": {"Mapped": "KotlinMapped", "Mapped2": "Second"}},
         "scala": {"type_mappings": {"Mapped": "ScalaMapped", "Mapped2": "Second"}},
         "typescript": {"type_mappings": {"Mapped": "TsMapped", "Mapped2": "TsMapped"}},
-        "go": {"type_mappings": {"Mapped": "GoMapped", "Mapped2": "Second"}, "uppercase_acronyms": ["URL", "ID"], "no_pointer_slice": False},
+        # (the target of the second mapping ends in a word the acronym list re-spells: a mapping target is the user's name, applied unchanged)
+        "go": {"type_mappings": {"Mapped": "GoMapped", "Mapped2": "SecondId"}, "uppercase_acronyms": ["URL", "ID"], "no_pointer_slice": False},
         "python": {"type_mappings": {"Mapped": "PyMapped"}},
     },
     # a mapping for a type that is used WITH generic arguments the backend could not (or would otherwise) translate: the mapped name
@@ -321,7 +322,11 @@ def run(chk):
                         wrong.append(f"{s}/cli={'set' if rec['cli'][s] else 'absent'}/file={'set' if rec['file'][s] else 'absent'}/used={src}")
                 for k, v in rec["texp"].items():
                     if rec["tobs"].get(k) != v:
-                        wrong.append(f"table:{k}" + ("" if m.get("tables", "basic") == "basic" else "/profile=" + m["tables"]))
+                        prof = "" if m.get("tables", "basic") == "basic" else "/profile=" + m["tables"]
+                        if isinstance(v, dict) and isinstance(rec["tobs"].get(k), dict):          # a mapping table: name the entries that differ
+                            wrong += [f"table:{k}[{kk}]" + prof for kk in v if rec["tobs"][k].get(kk) != v[kk]]
+                        else:
+                            wrong.append(f"table:{k}" + prof)
             elif rec["ev"] == "gen":
                 wrong = [f"{s}/cli={'set' if rec['cli'][s] else 'absent'}/written={'value' if rec['written'][s] == rec['cli'][s] else 'empty' if not rec['written'][s] else 'other'}"
                          for s in SETTINGS if rec["written"][s] != rec["cli"][s]]
